@@ -282,6 +282,15 @@ P_Publish(n) == disp[n].idx > disp[n].base /\ disp[n].base >= 0
 \* published - the finite-trace core of "at least once" for a stable controller)
 C18_ControllerDispatches == \A n \in Nodes : (ctl = n /\ up[n]) => disp[n].st # "off"
 
+\* bounded "at least once": a controller whose dispatcher has walked the whole
+\* committed log and is waiting for the next commit, with nothing blocking the
+\* activity partition, has left nothing unpublished (on recorded behaviour: a state
+\* in which the controller was observed doing nothing for longer than any retry
+\* interval)
+Pending == {i \in EligIds(rlog) : i \notin Ids(pub)}
+Idle(n) == up[n] /\ ctl = n /\ ~blocked /\ disp[n].st = "run" /\ ~disp[n].lost /\ disp[n].idx > Len(rlog)
+C18_IdleMeansPublished == \A n \in Nodes : (Idle(n) /\ rs[n] = 0) => Pending = {}
+
 TypeOK ==
   /\ \A i \in 1..Len(rlog) : rlog[i].k \in {"S", "E", "N", "P"}
   /\ ctl \in Nodes \cup {None}
